@@ -217,14 +217,12 @@ def run(rep, tier, seed, selftest):
     for res in results:
         for rej in res["rejects"]:
             nondet.setdefault(rej["id"], rej)
-    all_cases = dict(cases)
-    all_cases.update(extra)
     by_id = {}
     for ln in lines:
         o = json.loads(ln)
         by_id.setdefault(o["id"], []).append(o)
     for cid, rej in sorted(nondet.items()):
-        case = all_cases[cid]
+        case = extra.get(cid) or cases[cid]
         runs = by_id[cid]
         nimp = max(len(re.findall(r'^\s*import\s+"', m["src"], re.M)) for m in case["mods"])
         distinct = len({json.dumps([r_["end"], r_["irh"], [(d["code"], d["start"]) for d in r_["diags"]]]) for r_ in runs})
